@@ -697,7 +697,15 @@ static void run_stress(int k, const std::string & hdr, const std::string & body)
 // schedule (worker ids; entries naming a finished worker are skipped; beyond its end: non-preemptive).  The main thread
 // runs <teardown> (dropping its own references) right after creating the workers, before any of them runs.  Printed: for every decision the worker resumed and the atomic step it then
 // executed (I<obj> / D<obj> / L = pool critical section / - = none), then the complete final dump.
-struct SchedEv {int tid; int kind; int id;};
+struct SchedEv {int tid; int kind; int id; std::string snap;};
+
+// the counts of all objects that exist (not destroyed, not in a free list is not distinguished here: a pooled-free object has count 0)
+static std::string count_snapshot()
+{
+   std::ostringstream o;
+   for (size_t id=0; id<g_objs.size(); id++) if (!g_objs[id].dead) {o << id << "=" << g_objs[id].addr->GetRefCount() << ",";}
+   return o.str();
+}
 
 static int counter_owner(const void * p)
 {
@@ -751,6 +759,7 @@ static void run_scheduled(int k, const std::string & hdr, const std::string & bo
          so.on_event = [&evs](const vsched::Event & e) {
             SchedEv se; se.tid = e.tid; se.kind = e.kind;
             se.id = ((e.kind == vsched::K_ATOMIC_INC)||(e.kind == vsched::K_ATOMIC_DEC)) ? counter_owner(e.ptr) : -1;
+            if (se.id != -1) se.snap = count_snapshot();   // the thread is about to park before this atomic operation: the state at the end of its slice
             evs.push_back(se);
          };
          vsched::Scheduler sc(so);
@@ -778,15 +787,16 @@ static void run_scheduled(int k, const std::string & hdr, const std::string & bo
             const int w = r.steps[i].taken.tid;
             const size_t from = r.steps[i].log_pos, to = (i+1 < r.steps.size()) ? r.steps[i+1].log_pos : r.log.size();
             std::string tag = pending[w].empty() ? "-" : pending[w];
+            std::string snap = "-";
             pending[w].clear();
             for (size_t e=from; (e<to)&&(e<evs.size()); e++)
             {
                char buf[32];
                if (evs[e].kind == vsched::K_MUTEX_LOCK) tag = "L";
-               else if (evs[e].kind == vsched::K_ATOMIC_INC) {sprintf(buf, "I%d", evs[e].id); pending[evs[e].tid] = buf;}
-               else if (evs[e].kind == vsched::K_ATOMIC_DEC) {sprintf(buf, "D%d", evs[e].id); pending[evs[e].tid] = buf;}
+               else if (evs[e].kind == vsched::K_ATOMIC_INC) {sprintf(buf, "I%d", evs[e].id); pending[evs[e].tid] = buf; snap = evs[e].snap;}
+               else if (evs[e].kind == vsched::K_ATOMIC_DEC) {sprintf(buf, "D%d", evs[e].id); pending[evs[e].tid] = buf; snap = evs[e].snap;}
             }
-            o << w << ":" << tag << " ";
+            o << w << ":" << tag << "/" << snap << " ";
          }
       }
       g_ev = NULL;
